@@ -59,5 +59,13 @@ def exit_with(spec, ready, gate):
         return
     if spec["how"] == "raise":
         raise ValueError("uncaught")
+    if spec.get("core"):
+        # allow a core file: the wait status then carries the "core dumped" bit next to the signal number
+        import resource
+        try:
+            hard = resource.getrlimit(resource.RLIMIT_CORE)[1]
+            resource.setrlimit(resource.RLIMIT_CORE, (hard, hard))
+        except (ValueError, OSError):
+            pass
     os.kill(os.getpid(), spec["sig"])
     time.sleep(30)
